@@ -169,7 +169,7 @@ class HTTPDriver(explore.Driver):
             priv = (f._pos, tuple((k, bytes(v)) for k, v in f.cache.items()),
                     f._len)
         except AttributeError:
-            priv = id(st)
+            priv = explore.unique_token()
         return (st.pos, priv)
 
 
